@@ -420,6 +420,7 @@ class DisjunctionMaxMatcher(UnionMatcher):
         return max(self.a.block_quality(), self.b.block_quality())
 
     def skip_to_quality(self, minquality):
+        self._id = None
         a = self.a
         b = self.b
 
@@ -442,7 +443,6 @@ class DisjunctionMaxMatcher(UnionMatcher):
             if not sk:
                 break
             skipped += sk
-        self._id = None
         return skipped
 
 
